@@ -66,7 +66,7 @@ class _Builder:
         k = ("x", ia, ib) if ia < ib else ("x", ib, ia)
         r = self.cache.get(k)
         if r is None:
-            r = z3.Xor(a, b)
+            r = (a != b)  # not z3.Xor: Z3_mk_xor (z3 5.1) flattens nested xors and goes exponential on shifter-shaped DAGs
             self.cache[k] = r
         return r
 
